@@ -95,6 +95,9 @@ class ConcreteSym:
     def pick(self, options, name: str = "pick"):
         return options[self.choice(len(options), name)]
 
+    def real_bytearray(self, n: int):
+        return bytearray(n)
+
     def assume(self, cond) -> None:
         if not cond:
             raise Precondition()
@@ -174,6 +177,13 @@ class SymbolicSym:
 
     def bool(self, name: str = "f"):
         return self.int(0, 1, name) == 1
+
+    def real_bytearray(self, n: int):
+        """a REAL bytearray (not a proxy): needed when the buffer is handed to C code that writes into it (ssl, sockets)"""
+        from crosshair.tracers import NoTracing
+
+        with NoTracing():
+            return bytearray(n)
 
     def pick(self, options, name: str = "pick"):
         """one of the concrete `options`, chosen by the solver; the returned value is CONCRETE on each path (forks),
